@@ -1,7 +1,7 @@
 """Evaluation of specification expressions over symbolic states."""
 import z3
 
-from .model import Val, Ptr, Unsupported
+from .model import forall, add0, Val, Ptr, Unsupported
 from .spec import ParseError
 
 
@@ -18,20 +18,23 @@ class Env:
         self.vars = {}
         self.loop_head = None
         self.loop_entry = None
+        self.bound = ()
 
     def with_state(self, st):
         e = Env(self.frame, st, self.old, self.results)
         e.vars = self.vars
         e.loop_head = self.loop_head
         e.loop_entry = self.loop_entry
+        e.bound = self.bound
         return e
 
-    def bind(self, name, v):
+    def bind(self, name, v, quantified=False):
         e = Env(self.frame, self.st, self.old, self.results)
         e.vars = dict(self.vars)
         e.vars[name] = v
         e.loop_head = self.loop_head
         e.loop_entry = self.loop_entry
+        e.bound = self.bound + ((v,) if quantified else ())
         return e
 
 
@@ -87,6 +90,10 @@ class SpecEval:
     # ------------------------------------------------------------ type names
     def type_key(self, ast):
         """resolve a type expression written in a spec (parser.SourceAccount, *parser.X, Monetary, ...)"""
+        if ast[0] == 'str':
+            if ast[1] not in self.m.types:
+                raise SpecError('unknown type key %r' % ast[1])
+            return ast[1]
         txt = type_text(ast)
         if txt in self._typecache:
             return self._typecache[txt]
@@ -296,7 +303,7 @@ class SpecEval:
         if k == 'slice':
             arr, off, ln = base.leaves
             E = m.elem(base.t)
-            p = Ptr('elem', E, '', arr, off + self.term(idx))
+            p = Ptr("elem", E, "", arr, add0(off, self.term(idx)))
             return self.ex.load(env.st, p)
         if k == 'map':
             key = self.term(idx)
@@ -369,6 +376,9 @@ class SpecEval:
                 return v.leaves[0] == 0
             raise SpecError('comparison of %s with nil' % v.t)
         if isinstance(x, Val) and isinstance(y, Val):
+            if m.kind(x.t) == 'slice' and m.kind(y.t) == 'slice':
+                # same slice: same array object and same bounds (Go itself only compares slices with nil)
+                return z3.And(*[a == b for a, b in zip(x.leaves, y.leaves)])
             return self.ex.val_eq(x, y)
         a, b = self.term(x), self.term(y)
         if z3.is_int(a) and z3.is_real(b):
@@ -428,20 +438,20 @@ class SpecEval:
             if args[0][0] != 'id':
                 raise SpecError('bound variable expected')
             bv = z3.Int(args[0][1] + '!b')
-            e2 = env.bind(args[0][1], bv)
+            e2 = env.bind(args[0][1], bv, True)
             lo = self.eval_term(args[1], e2)
             hi = self.eval_term(args[2], e2)
             body = self.eval_bool(args[3], e2)
             rng = z3.And(lo <= bv, bv < hi)
             if name == 'forall':
-                return z3.ForAll([bv], z3.Implies(rng, body))
+                return forall([bv], z3.Implies(rng, body))
             return z3.Exists([bv], z3.And(rng, body))
         if name in ('forallref', 'forallstr'):
             srt = self.m.Int if name == 'forallref' else self.m.Str
             bv = z3.Const(args[0][1] + '!b', srt)
-            e2 = env.bind(args[0][1], bv)
+            e2 = env.bind(args[0][1], bv, True)
             body = self.eval_bool(args[1], e2)
-            return z3.ForAll([bv], body)
+            return forall([bv], body)
         if name == 'fresh':
             v = self.eval_term(args[0], env)
             base = env.old.alloc if env.old is not None else self.ex.entry_alloc
@@ -473,8 +483,12 @@ class SpecEval:
                 a, b = env.st.heap(n), env.old.heap(n)
                 if a.eq(b):
                     continue
-                cs.append(z3.ForAll([r], z3.Implies(z3.And(r >= 0, r < env.old.alloc), z3.Select(a, r) == z3.Select(b, r)),
-                                    patterns=[z3.Select(a, r)]))
+                body = z3.Implies(z3.And(r >= 0, r < env.old.alloc), z3.Select(a, r) == z3.Select(b, r))
+                pats = [z3.Select(x, r) for x in (a, b) if not (z3.is_quantifier(x) and x.is_lambda())]
+                if pats:
+                    cs.append(forall([r], body, patterns=pats[:1]))
+                else:
+                    cs.append(forall([r], body))
             return z3.And(*cs) if cs else z3.BoolVal(True)
         if name in self.ex.db.specs:
             sd = self.ex.db.specs[name]
@@ -483,6 +497,7 @@ class SpecEval:
             e2 = Env(env.frame, env.st, env.old, env.results)
             e2.loop_head = env.loop_head
             e2.loop_entry = env.loop_entry
+            e2.bound = env.bound
             e2.vars = dict(env.vars)
             vals = [self.eval(a, env) for a in args]
             for p, v in zip(sd.params, vals):
